@@ -198,6 +198,7 @@ def gen(rng, tier, i):
         ph['typed_cycle'] = p.cycle(send(0, 'do call /g/tp warm;xco t /g/tc main\r\n'))
         ph['fam_cycle'] = p.cycle(send(0, 'do xco f /g/ia av\r\n')); ph['fam_expect'] = fam_value()
         if zl_len: ph['zl_cycle'] = p.cycle(send(0, 'do dest /g/zl;xco z /g/zl zn\r\n')); ph['zl_expect'] = zl_len
+        if lp_path: ph['lp_cycle'] = p.cycle(send(0, 'do dest /%s;xco l /%s v\r\n' % (lp_path, lp_path)))
         phases.append(ph)
     # now and then: a program with #pragma save_binary whose string table holds a constant folded from many literals, around
     # the 65535 characters that a saved binary can describe
@@ -207,6 +208,11 @@ def gen(rng, tier, i):
         zl_len = (nlit - 1) * 1000 + last
         lits = ['"%s"' % (chr(97 + k % 26) * 1000) for k in range(nlit - 1)] + ['"%s"' % ('z' * last)]
         p.file('g/zl.c', '#pragma save_binary\nstring zs() { return ' + ' +\n'.join(lits) + '; }\nint zn() { return strlen(zs()); }\n')
+    # now and then: a program with a saved binary that lives many directories deep (object names can be as long as a path)
+    lp_path = None
+    if rng.random() < 0.15:
+        lp_path = 'g/' + '/'.join(ch * rng.choice((40, 90, 100)) for ch in 'pqrst'[:rng.choice((2, 4, 5))]) + '/lp'
+        p.file(lp_path + '.c', '#pragma save_binary\nint v() { return 5; }\n')
     load_phase.need_connect = True
     load_phase()
     n = rng.randint(2, 7)
@@ -310,6 +316,10 @@ def check(plan, res):
             zx = [e.rest for e in events(ph['zl_cycle']) if e.kind == 'R' and e.rest.startswith('XR z ')]
             if zx and zx[-1] != 'XR z int:%d' % ph['zl_expect']:
                 bad('longconst', 'g/zl (saved binary, string constant of %d characters): zn() returned %s' % (ph['zl_expect'], zx[-1][5:]), 'behaviour/long-constant')
+        if ph.get('lp_cycle') is not None:
+            lx = [e.rest for e in events(ph['lp_cycle']) if e.kind == 'R' and e.rest.startswith('XR l ')]
+            if lx and lx[-1] != 'XR l int:5':
+                bad('longpath', 'a program many directories deep (saved binary): v() returned %s' % lx[-1][5:], 'behaviour/long-path')
         progs = ph['progs']
         inh = ph['inherit']
         def chain(x):
